@@ -489,6 +489,22 @@ theorem le_pushLoop (c : Ctl) (rs : List Nat) (fuel : Nat) : Le c (pushLoop c rs
               show Le c (pushLoop c3 _ n).1
               exact Le.trans h0 (Le.trans h1 (Le.trans h1' (Le.trans h2 (ih _ _))))
 
+theorem le_touchRunning (c : Ctl) : Le c (touchRunning c) := by
+  unfold touchRunning
+  suffices H : ∀ (l : List (Nat × Nat)) (acc : Ctl), Le c acc →
+      Le c (l.foldl (fun c x => match c.getOp x.2 with | some o => c.setOp o.checkTimeout.1 | none => c) acc) from
+    H c.running c (Le.refl c)
+  intro l
+  induction l with
+  | nil => intro acc h; exact h
+  | cons x rest ih =>
+    intro acc h
+    simp only [List.foldl_cons]
+    apply ih
+    split
+    · next o ho => exact Le.trans h (le_setOp' acc x.2 o _ ho (rel_checkTimeout o))
+    · exact h
+
 theorem le_pushOperators (c : Ctl) (rs : List Nat) : Le c (pushOperators c rs).1 :=
   le_pushLoop c rs _
 
